@@ -4,7 +4,7 @@ prop("C17", pkg="c17",
           "Tokenizer with Reset between them (inputs failing or abandoned half-way followed by valid ones, a second Tokenizer sharing the stack pool). Oracle for "
           "valid documents: a token model derived from encoding/json.Decoder.Token with a scope stack (delimiters, scalars, Depth/Index/IsKey for scalars and "
           "opening delimiters), concatenation of Values == json.Compact, Value pointer position vs Remaining, Kind class, String/Float/Int/Uint/Bool vs the "
-          "reference decoding. Any bytes: Next returns false within len+1 calls, error sticky. Reset: stream equals that of a new Tokenizer. Non-trivial = "
+          "reference decoding. DeepDocs: valid documents nested 100..10000 deep in 4 shapes (the Tokenizer must not stop before the decoders do). Any bytes: Next returns false within len+1 calls, error sticky. Reset: stream equals that of a new Tokenizer. Non-trivial = "
           "valid document of depth >= 2 containing an object, byte string of >= 4 bytes, or history with a failing/abandoned input followed by a valid one; "
           "distinct = FNV-64 of the inputs.",
      quick=dict(shards=16, scale=2, timeout=900),
